@@ -3,6 +3,7 @@
 use crate::e3_core::*;
 use crate::e3_hist;
 use crate::e3_times;
+use crate::e3_async;
 use vkit::isolate::{self, Outcome};
 use vkit::serde_json::{json, Value};
 
@@ -372,6 +373,124 @@ pub fn main_times(a: &Args) -> i32 {
     0
 }
 
+fn enumerate_async(alpha: &[e3_async::Op], depth: usize, mut emit: impl FnMut(&[e3_async::Op])) {
+    fn rec(alpha: &[e3_async::Op], depth: usize, m: &e3_async::Model, cur: &mut Vec<e3_async::Op>, emit: &mut dyn FnMut(&[e3_async::Op])) {
+        if cur.len() == depth {
+            emit(cur);
+            return;
+        }
+        for o in alpha {
+            if m.enabled(o) {
+                let mut m2 = m.clone();
+                m2.step(o);
+                cur.push(*o);
+                rec(alpha, depth, &m2, cur, emit);
+                cur.pop();
+            }
+        }
+    }
+    rec(alpha, depth, &e3_async::Model::default(), &mut Vec::new(), &mut emit);
+}
+
+pub fn main_async(a: &Args) -> i32 {
+    let alpha = e3_async::alphabet(a.small);
+    let second_thread = a.extra.iter().any(|x| x == "--threads");
+    let mut hists: Vec<Vec<e3_async::Op>> = Vec::new();
+    if let Some(f) = &a.replay {
+        let txt = std::fs::read_to_string(f).expect("replay file");
+        let v: Value = vkit::serde_json::from_str(&txt).expect("replay json");
+        let h: Vec<e3_async::Op> = v["case"]["history"].as_array().expect("history").iter().map(|s| e3_async::op_from_str(s.as_str().unwrap()).expect("op")).collect();
+        hists.push(h.clone());
+        hists.push(h);
+    } else {
+        let mut idx = 0usize;
+        enumerate_async(&alpha, a.depth, |h| {
+            if idx % a.shard.1 == a.shard.0 {
+                hists.push(h.to_vec());
+            }
+            idx += 1;
+        });
+    }
+    let per_child = if a.replay.is_some() { 1 } else { a.per_child };
+    let outcomes = isolate::run(hists.len(), per_child, 60_000, |i| {
+        let r = e3_async::run_history(&hists[i], second_thread);
+        let stop = !r.violations.is_empty();
+        let v = json!({"d": r.digest, "steps": r.steps,
+            "v": r.violations.iter().map(|x| json!({"prop": x.prop, "key": x.key, "step": x.step, "what": x.what})).collect::<Vec<_>>()});
+        (vkit::serde_json::to_vec(&v).unwrap(), stop)
+    });
+    let mut steps = 0u64;
+    let mut viols: Vec<Value> = Vec::new();
+    let mut seen_keys: std::collections::BTreeMap<(String, String), usize> = Default::default();
+    let mut distinct: std::collections::HashSet<u64> = Default::default();
+    let mut crashed = 0u64;
+    let mut digests: Vec<(u64, bool)> = Vec::new();
+    for (i, o) in outcomes.iter().enumerate() {
+        let hist_json: Vec<String> = hists[i].iter().map(e3_async::op_to_str).collect();
+        let mut add = |prop: &str, key: &str, step: u64, what: String, viols: &mut Vec<Value>| {
+            let c = seen_keys.entry((prop.to_string(), key.to_string())).or_insert(0);
+            *c += 1;
+            if *c <= 3 {
+                viols.push(json!({"prop": prop, "key": key, "step": step, "what": what, "history": hist_json}));
+            }
+        };
+        match o {
+            Outcome::Done(bytes) => {
+                let v: Value = vkit::serde_json::from_slice(bytes).unwrap();
+                steps += v["steps"].as_u64().unwrap();
+                let d = v["d"].as_u64().unwrap();
+                distinct.insert(d);
+                digests.push((d, !v["v"].as_array().unwrap().is_empty()));
+                for x in v["v"].as_array().unwrap() {
+                    add(x["prop"].as_str().unwrap(), x["key"].as_str().unwrap(), x["step"].as_u64().unwrap(), x["what"].as_str().unwrap().to_string(), &mut viols);
+                }
+            }
+            Outcome::Signal(sig, prog) => {
+                crashed += 1;
+                digests.push((0, true));
+                add("C14", &format!("process-killed-signal-{sig}"), *prog & 0xFFF, format!("the process died with signal {sig} at operation {} of this history (awaiting the functions / dropping their values)", prog & 0xFFF), &mut viols);
+            }
+            Outcome::Exit(code, prog) => {
+                crashed += 1;
+                digests.push((0, true));
+                add("C14", &format!("process-exit-{code}"), *prog & 0xFFF, format!("the process exited with status {code}"), &mut viols);
+            }
+            Outcome::Timeout(prog) => {
+                crashed += 1;
+                digests.push((0, true));
+                add("C14", "hang", *prog & 0xFFF, "no progress for 60 s (an await never completes?)".into(), &mut viols);
+            }
+        }
+    }
+    if a.replay.is_some() && digests.len() == 2 && digests[0] != digests[1] {
+        viols.push(json!({"prop": "MACHINERY", "key": "nondeterministic-replay", "step": 0, "what": "two runs of the same history gave different observations", "history": []}));
+    }
+    if let Some(f) = &a.digests {
+        let mut s = String::new();
+        for (i, d) in digests.iter().enumerate() {
+            s.push_str(&format!("{} {:016x} {}\n", hists[i].iter().map(e3_async::op_to_str).collect::<Vec<_>>().join(","), d.0, d.1 as u8));
+        }
+        std::fs::write(f, s).unwrap();
+    }
+    let mut prefixes = 0u64;
+    if a.shard.0 == 0 && a.replay.is_none() {
+        for d in 1..=a.depth {
+            enumerate_async(&alpha, d, |_| prefixes += 1);
+        }
+    }
+    let samples: Vec<Vec<String>> = hists.iter().step_by((hists.len() / 4).max(1)).take(4).map(|h| h.iter().map(e3_async::op_to_str).collect()).collect();
+    let out = json!({
+        "engine": "e3", "family": "async", "mounted": crate::envx::MOUNTED,
+        "depth": a.depth, "shard": [a.shard.0, a.shard.1], "alphabet": alpha.iter().map(e3_async::op_to_str).collect::<Vec<_>>(),
+        "histories": hists.len(), "steps": steps, "prefixes": prefixes, "model_states": 0,
+        "distinct_outcomes": distinct.len(), "crashed": crashed,
+        "violation_counts": seen_keys.iter().map(|((p, k), c)| json!({"prop": p, "key": k, "count": c})).collect::<Vec<_>>(),
+        "violations": viols, "samples": samples,
+    });
+    println!("{}", vkit::serde_json::to_string(&out).unwrap());
+    0
+}
+
 pub fn main() {
     vkit::proc::ensure_no_aslr();
     isolate::quiet_panics();
@@ -379,6 +498,7 @@ pub fn main() {
     let code = match a.family.as_str() {
         "hist" => main_hist(&a),
         "times" => main_times(&a),
+        "async" => main_async(&a),
         other => {
             eprintln!("e3: unknown family {other:?}");
             2
